@@ -103,9 +103,9 @@ CLAIMS = {
          'Not covered: the chain construction in HeContext::new / create_next_context_data (HashMap, Arc::as_ptr().cast_mut(), iterator closures) - the chain model used by the other units (specs/common/ctx_env.vinc) remains an ASSUMPTION; CoeffModulus::create (HashMap).', '5 C13'),
  'C15': ('Serializers without context (scalars, Vec<T>, Modulus, ParmsID, SchemeType, Plaintext, EncryptionParameters, byte-width packing helpers) are verified '
          'against an abstract model of std::io::{Read,Write} quantified over all implementations: Ok implies the complete encoding was written / exactly one encoding '
-         'consumed, and no unwrap/panic is reachable. Ciphertexts (unit c14_cipher): serialize_full / deserialize_full and the compact SerializableWithHeContext serialize / deserialize / serialized_size are proved complete-or-error and panic-free over the same stream model, the readers on every (truncation of a) stream whose header is consistent with the context (parms id of a level, size <= 16, canonical seed flag). Keys, containers, the selected-terms format and PolynomialSerializer are not covered.', '5 C15'),
+         'consumed, and no unwrap/panic is reachable. Ciphertexts (unit c14_cipher): serialize_full / deserialize_full and the compact SerializableWithHeContext serialize / deserialize / serialized_size are proved complete-or-error and panic-free over the same stream model, the readers on every (truncation of a) stream whose header is consistent with the context (parms id of a level, size <= 16, canonical seed flag). The Cipher1d container forms (unit c14_cont) propagate every element error and never panic on streams in the domain of the element readers. Keys, Cipher2d / Cipher3d, plaintext containers, the selected-terms element format and PolynomialSerializer are not covered.', '5 C15'),
  'C14': ('For the same context-free types: serialize appends exactly enc(x), serialized_size == |enc(x)| == bytes written, deserialize consumes exactly |enc(v)| bytes and '
-         '(for canonical input) those bytes are enc(v); byte-width packing read/write are mutually consistent for every limit 0..8. Ciphertexts (unit c14_cipher), both formats: the full-width and the compact serializer append exactly one encoding function of the object (header, scheme field, seed flag, residues packed at the byte width of each modulus, seed words), the announced sizes equal the length of that encoding, and the readers consume exactly the bytes of one encoding and return the object whose encoding those bytes are (every residue within its byte width, untouched words zero), seed-compressed input restored to its expanded form (expansion itself external). Not covered: selected-terms format, keys, containers, PolynomialSerializer, the cross-context half, ExpandSeed internals.', '5 C14'), 'C20': ('Index safety and acceptance of the 2-D convolution encoders, for every shape admitted by the helper invariant (blocks between kernel and tensor size, one batch-block x channel-block x height-block x width-block fits the slot count; every dimension up to 4096): '
+         '(for canonical input) those bytes are enc(v); byte-width packing read/write are mutually consistent for every limit 0..8. Ciphertexts (unit c14_cipher), both formats: the full-width and the compact serializer append exactly one encoding function of the object (header, scheme field, seed flag, residues packed at the byte width of each modulus, seed words), the announced sizes equal the length of that encoding, and the readers consume exactly the bytes of one encoding and return the object whose encoding those bytes are (every residue within its byte width, untouched words zero), seed-compressed input restored to its expanded form (expansion itself external). The container Cipher1d (unit c14_cont), context-dependent and selected-terms forms: writers append the 8-byte count followed by the element encodings in order (also for the empty container), size functions announce exactly that, readers consume the elements one after the other starting where the previous one ended and return them in order - with the element serializers as contracts (uninterpreted element encodings; proved for the compact element format in c14_cipher, ASSUMED for the selected-terms element format). Not covered: the selected-terms element format, Cipher2d / Cipher3d and the plaintext containers, keys, PolynomialSerializer, the cross-context half, ExpandSeed internals.', '5 C14'), 'C20': ('Index safety and acceptance of the 2-D convolution encoders, for every shape admitted by the helper invariant (blocks between kernel and tensor size, one batch-block x channel-block x height-block x width-block fits the slot count; every dimension up to 4096): '
          'Conv2dHelper::encode_weights_bfv, encode_inputs_bfv and decrypt_outputs_bfv are proved free of out-of-bounds accesses, division by zero and arithmetic overflow in their 6- and 8-deep loop nests (source and destination index formulas bounded by nonlinear-arithmetic lemmas), to terminate, '
          'and to hand the encoder only coefficient lists it accepts (BatchEncoder::encode_polynomial_new proved, in unit c11_batch, to accept every list of at most N values and to reduce each coefficient modulo t); ceil_div is proved against its definition. '
          'ASSUMED: the helper invariant itself (Conv2dHelper::new iterates reversed inclusive ranges, which Verus cannot take). '
